@@ -16,7 +16,8 @@ class Executor:
         """
         self._cells_have_been_changed: bool = False
         self._executed_instance: Optional[AbstractExcelInPython] = None
-        self._cells: Set[Cell] = set()
+        # uid -> the most recently supplied override of that cell
+        self._cells: Dict[str, dict] = {}
         self._titles: Dict[str, int] = {}
         self._sheets_size: List[Dict[str, int]] = []
 
@@ -71,7 +72,9 @@ class Executor:
             self._sheets_size[sheet]['last_row'] = max(row, self._sheets_size[sheet]['last_row'])
             self._sheets_size[sheet]['last_column'] = max(column, self._sheets_size[sheet]['last_column'])
 
-        self._cells = {*cells, *self._cells}
+        for cell in cells:
+            # the last write wins: a later value for the same cell replaces the earlier one
+            self._cells[cell.uid] = cell.to_dict()
         self._cells_have_been_changed = True
         return self
 
@@ -82,7 +85,7 @@ class Executor:
         Returns:
             Executor.
         """
-        self._executed_instance.set_arguments([cell.to_dict() for cell in self._cells])
+        self._executed_instance.set_arguments(list(self._cells.values()))
         self._cells_have_been_changed = False
         return self
 
